@@ -7,7 +7,7 @@
     OutOfFuel is the only fuel-dependent outcome (C04_fuel_mono) and an explicit bound that
     depends only on the limits, the schema and the input LENGTH suffices (C04_total). *)
 From Coq Require Import List NArith ZArith.
-Require Import Base Schema Varint Reader Target De Wf DeSafetyProofs.
+Require Import Base Schema Varint Reader Target De Wf DeSafetyProofs DeTotalProofs.
 Import ListNotations.
 Open Scope N_scope.
 
@@ -38,6 +38,26 @@ Theorem C04_work_bound : forall Sc cfg depth len,
   work_bound Sc cfg depth len =
   (S depth * (Nat.max (N.to_nat (c_max_seq cfg)) (max_fields Sc) + 10) + N.to_nat len)%nat.
 Proof. exact work_bound_closed. Qed.
+
+(* ... and for EVERY target program (any finite tree of hints and visitors, typed Rust shapes
+   included): the bound additionally grows with the height of the target. Unmodelled marks the three
+   places where the model does not follow the crate (f64 hint on a decimal, enum-typed map key over a
+   record, a variant payload of another shape); [modelled] excludes them syntactically *)
+Theorem C04_total_target : forall Sc cfg fuel t rs,
+  schema_wf Sc = true -> c_max_seq cfg < 2 ^ 64 - 1 ->
+  (work_bound_t Sc cfg (c_depth cfg) t (blen (rd_inp rs)) <= fuel)%nat ->
+  (exists d r, de_datum fuel Sc cfg t rs = Ok (d, r)) \/ (exists e, de_datum fuel Sc cfg t rs = Err e) \/
+  de_datum fuel Sc cfg t rs = Unmodelled.
+Proof. exact de_datum_total_target. Qed.
+Theorem C04_work_bound_target : forall Sc cfg depth t len,
+  work_bound_t Sc cfg depth t len =
+  (S depth * (Nat.max (N.to_nat (c_max_seq cfg)) (max_fields Sc) + 10 + 2 * theight t) + N.to_nat len)%nat.
+Proof. exact work_bound_t_closed. Qed.
+Theorem C04_total_any_node : forall Sc cfg fuel n depth favor force t rs,
+  c_max_seq cfg < 2 ^ 64 - 1 -> (nfields n <= max_fields Sc)%nat ->
+  (work_bound_t Sc cfg depth t (blen (rd_inp rs)) <= fuel)%nat ->
+  fst (de Sc cfg fuel n depth favor force t rs) <> OutOfFuel.
+Proof. exact de_total_target. Qed.
 
 (* never reads outside its input: what remains is a suffix of the input, the position advanced
    by exactly what was dropped (every outcome, errors included) *)
@@ -88,3 +108,5 @@ Check de_seq_limit_triggers.
 Check has_more_saturates.
 Check de_alloc_limit_triggers.
 Check de_total_needs_limit_not_length.
+Check de_total_needs_theight.
+Check hyps_satisfiable_t.
